@@ -250,6 +250,7 @@ pub fn property() -> Property {
         id: "C17",
         cases,
         clauses: &["join-after-termination", "value-handed-out-once", "none-on-failure"],
+        full_rerun_check: true,
         assumptions: &["consume_sync documents that a rejected stop is reported before any waiting; that early error is not held against it"],
     }
 }
